@@ -46,7 +46,10 @@ func (e *Env) objectIntegrity(v *spec.Version, upTo string) {
 	}
 	kept := e.C.Obs[:before]
 	for _, o := range e.C.Obs[before:] {
-		if o.Rule == "wiring" || o.Rule == "arm-parser" {
+		// ... and a well-formed token is accepted: the only value test of an arm is "parsed value == the type's
+		// unknown/invalid constant" (a test against another constant rejects a specification code, and the vector
+		// it occurs in has no score at all)
+		if o.Rule == "wiring" || o.Rule == "arm-parser" || o.Rule == "arm-value" {
 			kept = append(kept, o)
 		}
 	}
